@@ -25,6 +25,10 @@ From TskVerif Require Import C01.TotalProofs.
 From TskVerif Require Import C01.ReverseTop.
 From TskVerif Require Import C01.LevelProofs.
 From TskVerif Require Import C01.CoiterProofs.
+From TskVerif Require Import C01.NavModel.
+From TskVerif Require Import C01.NavPosProofs.
+From TskVerif Require Import C01.NavProofs.
+From TskVerif Require Import C01.NavTop.
 Import ListNotations.
 Open Scope Z_scope.
 
@@ -437,3 +441,76 @@ Theorem reverse_entry_is_tree : forall L ns es Ins Rem q,
       get (q_bps q) (q_ntrees q - 1 - Z.of_nat k) = Ok (L - s_right s) /\
       get (q_bps q) (q_ntrees q - Z.of_nat k) = Ok (L - s_left s).
 Proof. exact reverse_intervals_lemma. Qed.
+
+(* ---- navigation: arbitrary histories on one tskit.Tree (C01.NavModel) ----
+   [nav_run] applies any list of next / prev / first / last / clear / seek(x) / seek_index(k)
+   to a fresh tree; [hist_spec] is the index each operation is documented to reach; [PosAt q p i]
+   says that p is on tree i with interval [bps[i], bps[i+1]) and that its in/out bookmarks are
+   the canonical ones for its direction (the cuts of the two index arrays at the right end of
+   the interval), i.e. exactly what the following next() / prev() starts from. *)
+
+(* after ANY history the tree is null (all parents NULL) or sits on the documented tree with
+   canonical bookmarks and parent[u] = parent_at x u for every x of its interval *)
+Theorem nav_state_exact : forall L ns es Ins Rem q,
+  valid_edgesb L ns es = true -> index_sorted es Ins Rem -> mk_tseq L ns es Ins Rem = Ok q ->
+  forall o s0 ops s, nav_fresh q o = Ok s0 -> nav_run q o s0 ops = Ok s ->
+  hist_spec q (-1) ops (n_index (v_pos s)) /\
+  ((n_index (v_pos s) = -1 /\ n_left (v_pos s) = 0 /\ n_right (v_pos s) = 0 /\
+    forall u, 0 <= u < zlen ns -> get (t_parent (v_tree s)) u = Ok NULL) \/
+   (exists i, PosAt q (v_pos s) i /\
+      forall x, n_left (v_pos s) <= x < n_right (v_pos s) ->
+      forall u, 0 <= u < zlen ns -> get (t_parent (v_tree s)) u = Ok (parent_at es x u))).
+Proof. exact nav_state_exact_lemma. Qed.
+
+(* every tree predicate that tsk_tree_clear establishes and remove_edge / insert_edge preserve
+   (on a present edge / a parentless child) holds after any history *)
+Theorem nav_induction : forall L ns es Ins Rem q,
+  valid_edgesb L ns es = true -> index_sorted es Ins Rem -> mk_tseq L ns es Ins Rem = Ok q ->
+  forall o (J : tree -> Prop),
+  (forall t, tree_clear q o = Ok t -> J t) ->
+  (forall t t', J t -> tree_clear_from q o t = Ok t' -> J t') ->
+  (forall t e t', J t -> In e es -> get (t_parent t) (echild e) = Ok (eparent e) ->
+     remove_edge q o t (eparent e) (echild e) = Ok t' -> J t') ->
+  (forall t e i t', J t -> In e es -> get (t_parent t) (echild e) = Ok NULL ->
+     insert_edge q o t (eparent e) (echild e) i = Ok t' -> J t') ->
+  forall s0 ops s, nav_fresh q o = Ok s0 -> nav_run q o s0 ops = Ok s -> J (v_tree s).
+Proof. exact nav_induction_lemma. Qed.
+
+Theorem nav_num_edges_exact : forall L ns es Ins Rem q,
+  valid_edgesb L ns es = true -> index_sorted es Ins Rem -> mk_tseq L ns es Ins Rem = Ok q ->
+  forall o s0 ops s, nav_fresh q o = Ok s0 -> nav_run q o s0 ops = Ok s ->
+  t_num_edges (v_tree s) = nparents (t_parent (v_tree s)).
+Proof. exact nav_num_edges_lemma. Qed.
+
+(* from canonical bookmarks next() / prev() never fail, hand the tree exactly the edges that
+   end / start at the boundary being crossed, and leave canonical bookmarks *)
+Theorem bookmarks_next_exact : forall L ns es Ins Rem q,
+  valid_edgesb L ns es = true -> index_sorted es Ins Rem -> mk_tseq L ns es Ins Rem = Ok q ->
+  forall p i, PosAt q p i -> i + 1 < q_ntrees q ->
+  exists p', npos_next q p = Ok (p', true) /\ PosAt q p' (i + 1) /\ n_left p' = n_right p /\
+    b_rem (n_out p') = true /\ b_rem (n_in p') = false /\
+    (forall ie, (exists k, b_start (n_out p') <= k < b_stop (n_out p') /\ get (q_O q) k = Ok ie) <->
+                In ie (q_O q) /\ iright ie = n_right p) /\
+    (forall ie, (exists k, b_start (n_in p') <= k < b_stop (n_in p') /\ get (q_I q) k = Ok ie) <->
+                In ie (q_I q) /\ ileft ie = n_right p).
+Proof. exact bookmarks_next_lemma. Qed.
+
+Theorem bookmarks_prev_exact : forall L ns es Ins Rem q,
+  valid_edgesb L ns es = true -> index_sorted es Ins Rem -> mk_tseq L ns es Ins Rem = Ok q ->
+  forall p i, PosAt q p i -> 0 < i ->
+  exists p', npos_prev q p = Ok (p', true) /\ PosAt q p' (i - 1) /\ n_right p' = n_left p /\
+    b_rem (n_out p') = false /\ b_rem (n_in p') = true /\
+    (forall ie, (exists k, b_stop (n_out p') < k <= b_start (n_out p') /\ get (q_I q) k = Ok ie) <->
+                In ie (q_I q) /\ ileft ie = n_left p) /\
+    (forall ie, (exists k, b_stop (n_in p') < k <= b_start (n_in p') /\ get (q_O q) k = Ok ie) <->
+                In ie (q_O q) /\ iright ie = n_left p).
+Proof. exact bookmarks_prev_lemma. Qed.
+
+(* a seek from the null state, forward or backward, to any tree never fails and leaves the
+   canonical bookmarks of that tree *)
+Theorem seek_bookmarks_canonical : forall L ns es Ins Rem q,
+  valid_edgesb L ns es = true -> index_sorted es Ins Rem -> mk_tseq L ns es Ins Rem = Ok q ->
+  forall p i, n_index p = -1 -> 0 <= i < q_ntrees q ->
+  (exists p', npos_seek_forward q p i = Ok p' /\ PosAt q p' i) /\
+  (exists p', npos_seek_backward q p i = Ok p' /\ PosAt q p' i).
+Proof. exact seek_bookmarks_lemma. Qed.
